@@ -22,6 +22,7 @@
 using namespace vh;
 
 static bool g_hw = false;                  // hardware watchpoints usable (and not running under valgrind)
+static unsigned char* g_far_centre = nullptr;   // centre window of the far-index reservation (nullptr: not available)
 static unsigned char* g_pages = nullptr;  // 3 pages: [PROT_NONE][RW][PROT_NONE]
 static const std::size_t PG = 4096;
 static unsigned char* mid_begin() { return g_pages + PG; }
@@ -300,10 +301,101 @@ struct MemDrv {
         emit_raw(s, tn, form);
     }
 
+    //--------------------------------------------------------------------
+    // gather / scatter with indices far outside the 32-bit range (64-bit index lanes) or near the ends of the
+    // 32-bit range (32-bit index lanes): five accessible 4 KiB windows inside one huge PROT_NONE reservation.
+    // The event is expressed in the coordinates of the concatenated windows (16 elements each), so the
+    // specification judges it exactly like a near gather; the index AVEL receives is the real, far one.
+    //--------------------------------------------------------------------
+    enum { FW = 5, FE = 16 };
+    static long long far_off(int w) {      // byte offset of window w from the centre window
+        if (sizeof(S) == 8) {
+            const long long f = ((1ll << 32) + 16) * 8;
+            const long long o[FW] = {0, f, -f, (1ll << 31) * 8 + 64 * 8, -((1ll << 31) * 8 + 64 * 8)};
+            return o[w];
+        }
+        const long long o[FW] = {0, ((1ll << 29) + 8) * 4, -(((1ll << 29) + 8) * 4), ((1ll << 31) - 1024) * 4, -(((1ll << 31) - 1024) * 4)};
+        return o[w];
+    }
+    static S* far_win(int w) { return reinterpret_cast<S*>(g_far_centre + far_off(w)); }
+
+    template<class F>
+    void far_gather(const char* form, unsigned long n, F f) {
+        if (!g_far_centre) return;
+        const unsigned k = unsigned(n < N ? n : N);
+        std::vector<unsigned char> img(FW * FE * W);
+        for (int w = 0; w < FW; ++w) {
+            unsigned char* wb = reinterpret_cast<unsigned char*>(far_win(w));
+            for (unsigned i = 0; i < FE * W; ++i) wb[i] = (unsigned char) (1 + ((i * 13 + w * 41 + serial * 7) % 250));
+            std::memcpy(&img[w * FE * W], wb, FE * W);
+        }
+        ++serial;
+        const int b0 = int(rng.next() % FE);
+        const S* p = far_win(0) + b0;
+        std::array<IS, N> idx;
+        std::string idxs = "[";
+        for (unsigned j = 0; j < N; ++j) {
+            if (j < k) {
+                int w = int((j + serial) % FW), e = int(rng.next() % FE);
+                long long real = (reinterpret_cast<const unsigned char*>(far_win(w) + e) - reinterpret_cast<const unsigned char*>(p)) / (long long) W;
+                idx[j] = IS(real);
+                idxs += (j ? "," : "") + std::to_string(w * FE + e - b0);
+            } else {
+                idx[j] = IS(4096 / W + 64 + int(j));      // inactive: inside the reservation, inaccessible
+            }
+        }
+        idxs += "]";
+        opaque(idx);
+        A r{};
+        int sg = guarded([&] { r = avel::to_array(f(p, IV(idx))); });
+        std::string s = head("gather", n) + ",\"place\":\"far\",\"base\":" + std::to_string(b0) + ",\"idx\":" + idxs + ",\"mem\":" +
+                        bytes(img.data(), img.size()) + ",\"r\":" + (sg ? std::string("[]") : bytes(r.data(), N * W)) + ",\"sig\":\"" + signame(sg) + "\"}";
+        emit_raw(s, tn, form);
+    }
+    template<class F>
+    void far_scatter(const char* form, unsigned long n, F f) {
+        if (!g_far_centre) return;
+        const unsigned k = unsigned(n < N ? n : N);
+        std::vector<unsigned char> before(FW * FE * W), after(FW * FE * W);
+        for (int w = 0; w < FW; ++w) {
+            unsigned char* wb = reinterpret_cast<unsigned char*>(far_win(w));
+            for (unsigned i = 0; i < FE * W; ++i) wb[i] = (unsigned char) (0x80 | ((i * 3 + w * 17 + serial) & 0x7F));
+            std::memcpy(&before[w * FE * W], wb, FE * W);
+        }
+        A v = fresh_vector();
+        const int b0 = int(rng.next() % FE);
+        S* p = far_win(0) + b0;
+        std::array<IS, N> idx;
+        std::string idxs = "[";
+        bool used[FW * FE] = {};
+        for (unsigned j = 0; j < N; ++j) {
+            if (j < k) {
+                int w, e;
+                do { w = int(rng.next() % FW); e = int(rng.next() % FE); } while (used[w * FE + e]);
+                used[w * FE + e] = true;
+                long long real = (reinterpret_cast<unsigned char*>(far_win(w) + e) - reinterpret_cast<unsigned char*>(p)) / (long long) W;
+                idx[j] = IS(real);
+                idxs += (j ? "," : "") + std::to_string(w * FE + e - b0);
+            } else {
+                idx[j] = IS(4096 / W + 64 + int(j));
+            }
+        }
+        idxs += "]";
+        opaque(idx);
+        int sg = guarded([&] { f(p, V(v), IV(idx)); });
+        for (int w = 0; w < FW; ++w) std::memcpy(&after[w * FE * W], far_win(w), FE * W);
+        std::string s = head("scatter", n) + ",\"place\":\"far\",\"base\":" + std::to_string(b0) + ",\"idx\":" + idxs + ",\"v\":" +
+                        bytes(v.data(), N * W) + ",\"mem\":" + bytes(before.data(), before.size()) + ",\"after\":" + bytes(after.data(), after.size()) +
+                        ",\"sig\":\"" + signame(sg) + "\"}";
+        emit_raw(s, tn, form);
+    }
+
     template<unsigned K, class VV = V>
     typename std::enable_if<(sizeof(typename VV::scalar) >= 4)>::type gs_ct() {
         one_gather("gather_ct", K, [](const S* p, IV i) { return avel::gather<V, K>(p, i); });
         one_scatter("scatter_ct", K, [](S* p, V v, IV i) { avel::scatter<K>(p, v, i); });
+        far_gather("gather_ct", K, [](const S* p, IV i) { return avel::gather<V, K>(p, i); });
+        far_scatter("scatter_ct", K, [](S* p, V v, IV i) { avel::scatter<K>(p, v, i); });
     }
     template<unsigned K, class VV = V>
     typename std::enable_if<(sizeof(typename VV::scalar) < 4)>::type gs_ct() {}
@@ -313,6 +405,8 @@ struct MemDrv {
         for (int rep = 0; rep < 3; ++rep) {
             one_gather("gather_n", n, [n](const S* p, IV i) { return avel::gather<V>(p, i, std::uint32_t(n)); });
             one_scatter("scatter_n", n, [n](S* p, V v, IV i) { avel::scatter(p, v, i, std::uint32_t(n)); });
+            far_gather("gather_n", n, [n](const S* p, IV i) { return avel::gather<V>(p, i, std::uint32_t(n)); });
+            far_scatter("scatter_n", n, [n](S* p, V v, IV i) { avel::scatter(p, v, i, std::uint32_t(n)); });
         }
     }
     template<class VV = V>
@@ -388,6 +482,22 @@ int main(int argc, char** argv) {
     if (g_pages == MAP_FAILED) return 2;
     std::memset(g_pages, 0x5A, 3 * PG);
     if (mprotect(g_pages, PG, PROT_NONE) || mprotect(g_pages + 2 * PG, PG, PROT_NONE)) return 2;
+#ifndef VH_VALGRIND
+    {   // far-index reservation: 80 GiB of PROT_NONE address space, five accessible pages (no memory is committed)
+        const std::size_t HALF = std::size_t(40) << 30;
+        void* r = mmap(nullptr, 2 * HALF + PG, PROT_NONE, MAP_PRIVATE | MAP_ANONYMOUS | MAP_NORESERVE, -1, 0);
+        if (r != MAP_FAILED) {
+            g_far_centre = static_cast<unsigned char*>(r) + HALF;
+            const long long offs[] = {0, ((1ll << 32) + 16) * 8, -(((1ll << 32) + 16) * 8), (1ll << 31) * 8 + 64 * 8, -((1ll << 31) * 8 + 64 * 8),
+                                      ((1ll << 29) + 8) * 4, -(((1ll << 29) + 8) * 4), ((1ll << 31) - 1024) * 4, -(((1ll << 31) - 1024) * 4)};
+            for (long long o : offs) {
+                unsigned char* w = g_far_centre + o;
+                unsigned char* pg = reinterpret_cast<unsigned char*>(reinterpret_cast<std::uintptr_t>(w) & ~std::uintptr_t(PG - 1));
+                if (mprotect(pg, 2 * PG, PROT_READ | PROT_WRITE)) { g_far_centre = nullptr; break; }
+            }
+        }
+    }
+#endif
     install_handlers();
 #ifndef VH_VALGRIND
     g_hw = !std::getenv("VH_NO_HWWATCH") && HwWatch::available() && HwWatch::masked_out_is_silent();
